@@ -829,6 +829,14 @@ def check_config(ctx, cfg, rule, res, tag):
                 ctx.skip("calibrated scale at rounding level (the solution is a polynomial of degree <= q: residuals cancel, derivatives are not determined by the float data)")
                 return
             i0 += size
+    # dynamic calibration with an exactly consistent state: the local scale sits at its floor (machine epsilon, repository fix
+    # 4b386e0) and every standard deviation is ~1e-16: their derivatives are rounding noise in both AD modes
+    i0 = 0
+    for name, size in segments:
+        if name in ("std0", "std_hi") and size and np.max(np.abs(y[i0 : i0 + size])) < 1e-9:
+            ctx.skip("all standard deviations at rounding level (calibrated scale at its floor): derivatives are not determined by the float data")
+            return
+        i0 += size
     Jf, Jr, Jt = res["jacfwd"], res["jacrev"], res["jacfwd_tri"]
     s = np.maximum(np.abs(x0), 2.0**-4)
     Jd, err = res["fd"], res["fd_err"]
